@@ -27,7 +27,16 @@ package handlers
 //@ type ServerHandler semaphore tailLimiter
 // Readers are made only here, for the path that was checked, and read is
 // reached only through the permission check.
+// (C06) g_openLines: ghost count of per-file lines channels handed to the
+// aggregator and not yet closed. The aggregator finishes only when every channel
+// it was given is closed, so read closes each one it registered — on every way
+// out, also when the reader failed.
 //@ func (*readCommand).read
+//@   ghost-init g_openLines == 0
+//@   on-send aggregate.NextLinesCh effect g_openLines == g_openLines + 1
+//@   at-call builtin:close effect g_openLines == g_openLines - 1
+//@   loop 1 invariant [registered-channels-closed] g_openLines == 0
+//@   ensures [every-registered-channel-closed] g_openLines == 0
 //@   callers-only (*readCommand).readFileIfPermissions, (*readCommand).Start
 //@   at-call NewCatFile [reads-the-checked-path] arg0 == path
 //@   at-call NewTailFile [reads-the-checked-path] arg0 == path
